@@ -502,6 +502,33 @@ def rule_mode_branch(db: ProgramDB) -> List[Instance]:
                          "calls the function and builds nothing") if ok else
                         ("in symbolic mode the wrapper must build an expression and must not run the user function"
                          if mode_on else "outside symbolic mode the wrapper must simply call the function")))
+    # outside a block the call is ordinary Python: the function receives exactly the caller's arguments, as they were passed
+    # (converting positional arguments to keywords changes *args functions, positional-only parameters and duplicate detection)
+    cfg, reach = _reachable_when_mode(db, wrap, False)
+    va = wrap.node.args.vararg.arg if wrap.node.args.vararg else None
+    kw = wrap.node.args.kwarg.arg if wrap.node.args.kwarg else None
+    fcalls = [c for c in _calls_in_reach(cfg, reach) if isinstance(c.func, ast.Name) and c.func.id == fparam]
+    for c in fcalls:
+        star_ok = va is None or (len(c.args) == 1 and isinstance(c.args[0], ast.Starred) and unparse(c.args[0].value) == va)
+        kw_ok = kw is None or (len(c.keywords) == 1 and c.keywords[0].arg is None and unparse(c.keywords[0].value) == kw)
+        touched = []
+        for nid in reach:
+            a = cfg.nodes[nid].ast
+            if a is None:
+                continue
+            for x in ast.walk(a):
+                if isinstance(x, ast.Call) and isinstance(x.func, ast.Attribute) and isinstance(x.func.value, ast.Name) and x.func.value.id in (va, kw) \
+                        and x.func.attr in ("update", "pop", "setdefault", "clear", "popitem", "append", "extend", "insert", "remove"):
+                    touched.append(x)
+                if isinstance(x, (ast.Assign, ast.AugAssign)) and any(isinstance(t, ast.Name) and t.id in (va, kw) or (isinstance(t, ast.Subscript) and isinstance(t.value, ast.Name) and t.value.id in (va, kw))
+                                                                        for t in (x.targets if isinstance(x, ast.Assign) else [x.target])):
+                    touched.append(x)
+        ok = star_ok and kw_ok and not touched
+        out.append(inst("MODE-BRANCH", HOLDS if ok else VIOLATION, wrap, "predicate.wrapper[outside a block: the caller's arguments as passed]",
+                        f"`{unparse(c)}` with untouched arguments" if ok else
+                        (f"`{unparse(touched[0])[:60]}` rewrites the arguments before the ordinary call" if touched else f"`{unparse(c)}` does not pass `*{va}, **{kw}`") +
+                        ": outside every block a @predicate function must behave as ordinary Python - total(1, 2, 3) with a *rest signature, positional-only "
+                        "parameters and f(5, value=7) no longer do", line=c.lineno))
     return out
 
 
